@@ -202,6 +202,14 @@ static int storm_depth(void)
 static void storm_steer(struct dispatch_verif_site_s *s, const volatile void *a, int obj)
 {
 	(void)a; (void)obj;
+	/* a first enqueuer between its exchange of the tail and the store that publishes the head (or links the item behind
+	 * its predecessor): the list is non-empty but not walkable yet - the window of finding F1 and of every consumer
+	 * that must wait for the enqueuer (os_mpsc_get_head / pop_head).  Hold the enqueuer there now and then. */
+	if (!strcmp(s->dvs_func, "_dispatch_lane_push") && s->dvs_op[0] == 's' &&
+			(strstr(s->dvs_expr, "head") || strstr(s->dvs_expr, "do_next")) && (vrt_rand() % 8) == 0) {
+		usleep(100 + (unsigned)(vrt_rand() % 1200));
+		return;
+	}
 	if (!strstr(s->dvs_expr, "dq_state")) return;
 	if (g_susp && a && s->dvs_op[0] != 'l' && !strcmp(s->dvs_func, "_dispatch_queue_drain_try_unlock") &&
 			(*(const volatile uint64_t *)a & DISPATCH_QUEUE_PENDING_BARRIER) && (vrt_rand() & 1)) {
